@@ -3,7 +3,9 @@ Model of `TocTreeprocessor.run` (`markdown/extensions/toc.py`, priority 5: after
 before unescape), default configuration: marker `[TOC]`, no title, `toc_class = 'toc'`, no anchor links, no
 permalinks, `baselevel = 1`, `slugify = toc.slugify`, `separator = '-'`, `toc_depth = 6`.
 
-What `convert` shows of it: every heading without an `id` gets `unique(slugify(html.unescape(name)), used_ids)`; a
+What `convert` shows of it: every heading without an `id` gets `unique(slugify(html.unescape(name)), used_ids)`
+(`used_ids` = the *unescaped* `id` attributes of the document, as the tokens and the final `unescape` tree processor
+show them; before the repair of F-C17-4 the raw attributes were collected, so that `{#a\-b}` did not reserve `a-b`); a
 `data-toc-label` attribute is consumed; every element (outside headings, `pre`, `code`) that has no children and whose
 text, stripped, is the marker is replaced by the `div.toc` built from the nested tokens (`Toc.nestToc`) and
 prettified.  (`md.toc`, `md.toc_tokens` are side outputs and are not part of the model's answer.)
@@ -258,10 +260,21 @@ def replKids (div : Node) : List Node → List Node
     else replNode div c :: replKids div r
 end
 
+/-- `used_ids`: `unescape(el.attrib["id"])` for every `id` attribute of the document; `none` = `chr` raises -/
+def usedIds : List Str → Option (List Str)
+  | [] => some []
+  | i :: r =>
+    match TreeProc.unescapeText 0 i, usedIds r with
+    | some u, some r' => some (u :: r')
+    | _, _ => none
+
 /-- `TocTreeprocessor.run(doc)` -/
 def run (env : Env) (bl : List Str) (root : Node) : R Node :=
-  match walkNode env root { used := idsOf root, toks := [] } with
-  | .oof => .oof | .err => .err | .ood => .ood
-  | .ok (root', st) => .ok (replNode (buildDiv bl st.toks) root')
+  match usedIds (idsOf root) with
+  | none => .err
+  | some used =>
+    match walkNode env root { used := used, toks := [] } with
+    | .oof => .oof | .err => .err | .ood => .ood
+    | .ok (root', st) => .ok (replNode (buildDiv bl st.toks) root')
 
 end MdVerif.TocTree
